@@ -271,7 +271,7 @@ func cmdCheck(args []string) int {
 				}
 			}
 		}
-		if r.Reach["end"] == 0 && len(r.Inconclusive) == 0 && len(r.Violations) == 0 {
+		if r.Reach["end"] == 0 && r.Reach["outside-domain"] == 0 && len(r.Inconclusive) == 0 && len(r.Violations) == 0 {
 			inconclusive = append(inconclusive, label+": VACUOUS (no path reached the end of the harness)")
 		}
 		seenAssert := map[string]bool{}
@@ -525,9 +525,6 @@ func nativeReplay(file string) (bool, string) {
 	}
 	// apply the environment cut points natively (see nativeCuts)
 	for ci, cut := range nativeCuts {
-		if cut.Pkg != strings.TrimPrefix(doc.Pkg, "./") {
-			continue
-		}
 		src, err := os.ReadFile(filepath.Join(repo, cut.File))
 		if err != nil || !strings.Contains(string(src), cut.Old) {
 			return false, "native cut point not found in " + cut.File
